@@ -315,3 +315,43 @@ Proof.
   destruct ((bits =? 0) || (lenN s * 8 <=? bits)); [|discriminate].
   injection Hu as <-. unfold encode_uint. now rewrite be_of_N_of_be.
 Qed.
+
+(* ---- boundedness: every buffer the decoder hands out is a sub-string of the input.
+   In the Go Stream a buffer is allocated (make([]byte, size)) only after Kind()
+   has checked size <= remaining input; in the model that is takeN succeeding. *)
+Fixpoint item_bytes (x : item) : N :=
+  match x with
+  | Str s => lenN s
+  | Lst l => (fix go (l : list item) : N := match l with [] => 0 | y :: t => item_bytes y + go t end) l
+  end.
+
+Lemma enc_len_ge k c : lenN c <= lenN (enc k c).
+Proof.
+  destruct k; unfold enc, enc_hdr.
+  - destruct (is_single_low c); [lia|]. destruct (lenN c <? 56); rewrite lenN_app; lia.
+  - destruct (lenN c <? 56); rewrite lenN_app; lia.
+Qed.
+
+Theorem split_bounded b k c r : split b = Some (k, c, r) -> lenN c + lenN r <= lenN b.
+Proof.
+  intros H. apply split_canon in H as [-> _]. rewrite lenN_app. pose proof (enc_len_ge k c). lia.
+Qed.
+
+Lemma item_bytes_le_encode x : item_bytes x <= lenN (encode x).
+Proof.
+  induction x as [s|l IH] using item_ind'.
+  - rewrite encode_Str. cbn [item_bytes]. apply enc_len_ge.
+  - rewrite encode_Lst.
+    assert (Hs : item_bytes (Lst l) <= lenN (encode_list l));
+      [|pose proof (enc_len_ge KLst (encode_list l)); lia].
+    induction IH as [|y t Hy _ IHt]; [cbn; lia|].
+    change (item_bytes (Lst (y :: t))) with (item_bytes y + item_bytes (Lst t)).
+    rewrite encode_list_cons, lenN_app. lia.
+Qed.
+
+(* the total size of all strings in a decoded value never exceeds the input length *)
+Theorem decode_bounded b x r : decode b = Some (x, r) -> item_bytes x + lenN r <= lenN b.
+Proof.
+  intros H. apply decode_canonical in H as [-> _]. rewrite lenN_app.
+  pose proof (item_bytes_le_encode x). lia.
+Qed.
